@@ -100,6 +100,7 @@ type ClusterExec struct {
 	Asking bool
 	Holder []int // key-level holder of every key at execution time
 	Seg    int
+	Field  string // second argument of the command as received (hash field of an HSET)
 }
 
 type Cluster struct {
@@ -154,43 +155,46 @@ func NewCluster(n int, keys []string) (*Cluster, error) {
 		d.addrs = append(d.addrs, ln.Addr().String())
 	}
 	for i := 0; i < n; i++ {
-		i := i
-		d.wg.Add(1)
-		go func() {
-			defer d.wg.Done()
-			for {
-				c, err := d.lns[i].Accept()
-				if err != nil {
-					return
-				}
-				d.mu.Lock()
-				if d.closed {
-					d.mu.Unlock()
-					c.Close()
-					return
-				}
-				if d.down[i] {
-					d.mu.Unlock()
-					c.Close()
-					continue
-				}
-				d.conns[c] = struct{}{}
-				d.connOf[c] = i
-				d.mu.Unlock()
-				d.wg.Add(1)
-				go func() {
-					defer d.wg.Done()
-					d.serve(i, c)
-					d.mu.Lock()
-					delete(d.conns, c)
-					delete(d.connOf, c)
-					d.mu.Unlock()
-					c.Close()
-				}()
-			}
-		}()
+		d.acceptLoop(i, d.lns[i])
 	}
 	return d, nil
+}
+
+func (d *Cluster) acceptLoop(i int, ln net.Listener) {
+	d.wg.Add(1)
+	go func() {
+		defer d.wg.Done()
+		for {
+			c, err := ln.Accept()
+			if err != nil {
+				return
+			}
+			d.mu.Lock()
+			if d.closed {
+				d.mu.Unlock()
+				c.Close()
+				return
+			}
+			if d.down[i] {
+				d.mu.Unlock()
+				c.Close()
+				continue
+			}
+			d.conns[c] = struct{}{}
+			d.connOf[c] = i
+			d.mu.Unlock()
+			d.wg.Add(1)
+			go func() {
+				defer d.wg.Done()
+				d.serve(i, c)
+				d.mu.Lock()
+				delete(d.conns, c)
+				delete(d.connOf, c)
+				d.mu.Unlock()
+				c.Close()
+			}()
+		}
+	}()
 }
 
 func (d *Cluster) Close() {
@@ -288,6 +292,18 @@ func (d *Cluster) applyLocked(ev MigEv) bool {
 		}
 		d.fault = ev.Key
 		d.trace = append(d.trace, "F:"+ev.Key)
+	case "u": // node Dst comes back (same address)
+		if ev.Dst < 0 || ev.Dst >= d.n || !d.down[ev.Dst] {
+			return false
+		}
+		ln, err := net.Listen("tcp", d.addrs[ev.Dst])
+		if err != nil {
+			return false
+		}
+		d.lns[ev.Dst] = ln
+		d.down[ev.Dst] = false
+		d.acceptLoop(ev.Dst, ln)
+		d.trace = append(d.trace, fmt.Sprintf("u:%d", ev.Dst))
 	case "x": // node Dst goes down: listener and connections closed, slot table unchanged
 		if ev.Dst < 0 || ev.Dst >= d.n || d.down[ev.Dst] {
 			return false
@@ -483,7 +499,7 @@ func (d *Cluster) fireSchedLocked() {
 	d.reqCount++
 }
 
-func (d *Cluster) recordExecLocked(node int, id int, keys []string, txn int, asking bool) {
+func (d *Cluster) recordExecLocked(node int, id int, keys []string, txn int, asking bool, field ...string) {
 	h := make([]int, len(keys))
 	for i, k := range keys {
 		h[i] = d.holderLocked(k)
@@ -491,7 +507,11 @@ func (d *Cluster) recordExecLocked(node int, id int, keys []string, txn int, ask
 		// transferred would create the key in two places; holder stays the
 		// owner then and the monitor reports it.
 	}
-	d.execs = append(d.execs, ClusterExec{Node: node, ID: id, Keys: keys, Txn: txn, Asking: asking, Holder: h, Seg: d.seg})
+	f := ""
+	if len(field) > 0 {
+		f = field[0]
+	}
+	d.execs = append(d.execs, ClusterExec{Node: node, ID: id, Keys: keys, Txn: txn, Asking: asking, Holder: h, Seg: d.seg, Field: f})
 }
 
 func clB2i(b bool) int {
@@ -698,7 +718,11 @@ func (d *Cluster) handle(node int, st *clConnState, args []string) string {
 		d.seen[id] = true
 		d.arrivals[id]++
 		if out == "x" {
-			d.recordExecLocked(node, id, keys, -1, asking)
+			fld := ""
+			if len(args) > 2 {
+				fld = args[2]
+			}
+			d.recordExecLocked(node, id, keys, -1, asking, fld)
 			if flt == "ac" {
 				return ""
 			}
